@@ -52,11 +52,13 @@ class PlanKdf:
             first = False
         return out[:n]
 
-    def ike_keys(self, prf_id, integ_id, encr_bits, ni, nr, spi_i, spi_r, secret, old_sk_d=None):
+    def ike_keys(self, prf_id, integ_id, encr_bits, ni, nr, spi_i, spi_r, secret, old_sk_d=None, old_prf_id=None):
         p = self.ike[(prf_id, integ_id, encr_bits, old_sk_d is not None)]
         leaves = {'Ni': ni, 'Nr': nr, 'SPIi': spi_i, 'SPIr': spi_r, 'g^ir': secret, 'SK_d_old': old_sk_d or b''}
         cat = lambda names: b''.join(leaves[n] for n in names)
-        skeyseed = self.prf(prf_id, cat(p['skeyseed']['key']), cat(p['skeyseed']['data']))
+        if p['skeyseed']['fn'] == 'prf_old' and old_prf_id is None:
+            raise ValueError('the plan of a rekeyed IKE_SA needs the prf of the old IKE_SA')
+        skeyseed = self.prf({'prf': prf_id, 'prf_old': old_prf_id}[p['skeyseed']['fn']], cat(p['skeyseed']['key']), cat(p['skeyseed']['data']))
         km = self.prfplus(prf_id, skeyseed, cat(p['prfplus']['seed']), p['prfplus']['total'])
         out = {'skeyseed': skeyseed}
         for sl in p['slices']:
